@@ -134,8 +134,8 @@ def run_unit(ex, H, unit, res):
                 what = 'time-to-live is not decremented by exactly one' if i == 8 else (f'header byte {i} changed' if i < 20 else f'payload byte {i - 20} changed')
                 raise SpecViolation('forwarded-packet-altered:' + ('ttl' if i == 8 else ('header' if i < 20 else 'payload')), 'the forwarded packet differs from the received one: ' + what, m)
         # ---- the forwarding task itself: its coroutine body is run with the outcome of the ARP resolution chosen by the model
-        body_fn = [f for n, f in ex.fns.items() if n.endswith('demux::{closure#0}') and 'arp_router' in n]
-        if len(body_fn) != 1:
+        body_fn = [ex.coroutine_body(fut)]
+        if body_fn[0] is None:
             raise Unsupported('coroutine body of the forwarding task not found')
         outcome = ex.choose(['arp-resolved', 'arp-failed'])
         mac = sym_int('resolved_mac', 64)
